@@ -181,3 +181,95 @@ def observe_chunk(chunk: list[tuple[int, dict]]) -> list[dict]:
         out.append({"tid": tid, "kind": "flow", "decl": case["decl"], "toks": case["toks"], "args": args,
                     "runs": list(runs.values()), "inf": inf, "src": text})
     return out
+
+
+# =========================================================================== match statements with several cases and guards
+# (spec/MatchCases.tla).  Same division of labour: the visitor's inferred types and the runs of real CPython are recorded here,
+# TLC (spec/trace/MatchCasesTrace.tla) compares its model of the match semantics with the runs and judges the inferred types.
+def G(k: int, v: object) -> bool:
+    """A recorded read in guard position: remembers the object, then behaves like flag()."""
+    _S["ev"].append((k, v))
+    return flag()
+
+
+# MatchCases!MObjPool
+MATCH_POOL = [
+    {"c": "int", "v": "0", "items": []}, {"c": "int", "v": "1", "items": []}, {"c": "bool", "v": "True", "items": []},
+    {"c": "bool", "v": "False", "items": []}, {"c": "float", "v": "1.0", "items": []}, {"c": "str", "v": "a", "items": []},
+    {"c": "str", "v": "", "items": []}, {"c": "NoneType", "v": "None", "items": []}, {"c": "Color", "v": "RED", "items": []},
+    {"c": "Color", "v": "GREEN", "items": []}, {"c": "A", "v": "a", "items": []},
+    {"c": "tuple", "v": "", "items": []}, {"c": "tuple", "v": "", "items": [{"c": "int", "v": "1", "items": []}]},
+    {"c": "tuple", "v": "", "items": [{"c": "int", "v": "1", "items": []}, {"c": "str", "v": "a", "items": []}]},
+    {"c": "list", "v": "", "items": [{"c": "int", "v": "1", "items": []}]},
+    {"c": "dict", "v": "", "items": []},
+    {"c": "dict", "v": "", "items": [{"key": {"c": "str", "v": "a", "items": []}, "val": {"c": "int", "v": "1", "items": []}}]},
+]
+MATCH_PRELUDE = codec.PRELUDE + "from harness.flow_common import U, G, flag\n"
+MATCH_PRELUDE_LINES = MATCH_PRELUDE.count("\n")
+_MATCH_TOLERATED = {"unused_variable", "unused_assignment", "impossible_pattern", "unsafe_comparison", "incompatible_argument"}
+_GUARD_TEXT = {"flag": "flag()", "xnn": "x is not None", "xint": "isinstance(x, int)", "ynone": "y is None"}
+
+
+def match_pattern_text(c: dict) -> str:
+    k = c["kind"]
+    if k == "m_wild":
+        return "_"
+    if k == "m_capture":
+        return "z"
+    if k == "m_map":
+        return "{}"
+    return nc.pattern_text(c)
+
+
+def render_match(case: dict, name: str) -> list[str]:
+    lines = [f"def {name}(x: {codec.term_to_annotation(case['subj'])}, y: Optional[int] = None) -> None:", "    match x:"]
+    for i, cs in enumerate(case["cases"], start=1):
+        g = cs["g"]
+        guard = "" if g == "none" else " if " + (f"G({10 * i + 1}, x)" if g == "guse" else _GUARD_TEXT[g])
+        lines += [f"        case {match_pattern_text(cs['p'])}{guard}:", f"            U({10 * i + 2}, x)"]
+    lines.append("    U(99, x)")
+    return lines
+
+
+def observe_match_chunk(chunk: list[tuple[int, dict]]) -> list[dict]:
+    lines = [MATCH_PRELUDE.rstrip("\n")]
+    for i, (_tid, case) in enumerate(chunk):
+        lines += render_match(case, f"f_{i}")
+    src = "\n".join(lines) + "\n"
+    mod = pyz.make_module(src)
+    fails, _visitor, tree = pyz.check_source(src, module=mod, annotate=True, want_visitor=True)
+    bad = [f for f in pyz.brief(fails) if f[0] not in _MATCH_TOLERATED and (f[1] or 0) > MATCH_PRELUDE_LINES]
+    funcs = {n.name: n for n in tree.body if isinstance(n, ast.FunctionDef) and n.name.startswith("f_")}
+    pool = [codec.obj_to_py(o) for o in MATCH_POOL]
+    out = []
+    for i, (tid, case) in enumerate(chunk):
+        fn = funcs[f"f_{i}"]
+        lo, hi = fn.lineno, fn.end_lineno
+        text = "\n".join(src.splitlines()[lo - 1 : hi])
+        mine = [f for f in bad if lo <= (f[1] or 0) <= hi]
+        if mine:
+            raise core.MachineryError(f"generated match function raised unexpected diagnostics {mine}:\n{text}")
+        inf = []
+        for node in ast.walk(fn):
+            if isinstance(node, ast.Call) and isinstance(node.func, ast.Name) and node.func.id in ("U", "G"):
+                k = node.args[0].value
+                try:
+                    val = node.args[1].inferred_value
+                except AttributeError as exc:
+                    raise core.MachineryError(f"no inferred_value recorded for the read {k} in\n{text}") from exc
+                inf.append({"u": k, "t": codec.value_to_term(val)})
+        inf.sort(key=lambda r: r["u"])
+        real_fn = getattr(mod, f"f_{i}")
+        n_opaque = sum(1 for cs in case["cases"] if cs["g"] in ("flag", "guse"))
+        yvals = [None, 1] if any(cs["g"] == "ynone" for cs in case["cases"]) else [None]
+        runs: dict[str, dict] = {}
+        for a, av in zip(MATCH_POOL, pool):
+            for y in yvals:
+                for bits in itertools.product((True, False), repeat=n_opaque):
+                    _S["bits"], _S["ev"], _S["ticks"] = list(bits), [], 0
+                    real_fn(av, y)
+                    rec = {"arg": a, "y": codec.py_to_obj(y), "evs": [{"u": k, "o": codec.py_to_obj(v)} for k, v in _S["ev"]]}
+                    runs.setdefault(core.canon(rec), rec)
+        out.append({"tid": tid, "kind": "match", "subj": case["subj"], "cases": case["cases"], "args": MATCH_POOL,
+                    "runs": list(runs.values()), "inf": inf, "src": text})
+    return out
